@@ -89,6 +89,37 @@ func runC08(w *World, r *Report) {
 		}
 		r.Check(ok, "R1", "Backup/stores-successful-snapshot", bk.Pos(), "Backup keeps the snapshot only when it was taken without error")
 	}
+	// every existing file of the backed-up set is part of the snapshot (empty files too)
+	if bf := w.Fn(pkgConfig, "FileSystemOperation.backupFile"); bf == nil {
+		r.Undec("R1", "backupFile", token.NoPos, "function not found")
+	} else {
+		var mu *ssa.MapUpdate
+		Instrs(bf, func(in ssa.Instruction) {
+			if m, ok := in.(*ssa.MapUpdate); ok && Path(m.Map) == "param:backup.data" && Path(m.Key) == "param:filePath" {
+				mu = m
+			}
+		})
+		okStore := mu != nil && Derives(mu.Value, func(x ssa.Value) bool { return isCallTo0(x, "io.ReadAll") }) &&
+			Derives(mu.Value, func(x ssa.Value) bool {
+				return isCallTo0(x, "os.Open") && Path(peel(x).(*ssa.Call).Call.Args[0]) == "param:filePath"
+			})
+		var bad []string
+		for _, alt := range ReturnAlts(bf, 0) {
+			if !isNilConst(alt.Val) {
+				continue
+			}
+			if mu != nil && domInstr(mu, alt.Ret) {
+				continue
+			}
+			only := len(alt.Conds) == 1 && alt.Conds[0].Pol && isCallTo0(alt.Conds[0].V, "os.IsNotExist") &&
+				strings.HasPrefix(Path(alt.Conds[0].V), "os.IsNotExist(os.Stat(param:filePath)#1")
+			if !only {
+				bad = append(bad, w.Pos(posOf(alt.Ret))+" under "+condsString(alt.Conds))
+			}
+		}
+		r.Check(okStore && len(bad) == 0, "R1", "backupFile/every-existing-file-is-snapshotted", bf.Pos(),
+			"backupFile stores the file's content under its path (=%v) and succeeds without storing only when the file does not exist (other silent exits: %v)", okStore, bad)
+	}
 	// traversal agreement
 	{
 		cd, bd := w.Fn(pkgConfig, "FileSystemOperation.cleanUpDirectory"), w.Fn(pkgConfig, "FileSystemOperation.backupDirectory")
@@ -116,7 +147,7 @@ func runC08(w *World, r *Report) {
 	c08Handlers(w, r)
 	c08Publish(w, r)
 	c08Ownership(w, r)
-	r.Min("R1", 4)
+	r.Min("R1", 5)
 	r.Min("R2", 2)
 	r.Min("R3", 6)
 	r.Min("R4", 2)
